@@ -37,3 +37,9 @@ sv_t verif_slice_2d_int_ii(sv_t indices, sv_t shape, int i, int start, int stop)
 // ---- rank r = 3..8 (symbolic): integer, tuple, Ellipsis, integer: a[i, ::step, ..., j]  (Ellipsis expands to r-3 full axes)
 sv_t verif_shape_slice_ell(sv_t shape, int i, int step, int j)              { return ix::shape_slice(shape, i, nmtools_tuple<none_t,none_t,int>{None,None,step}, Ellipsis, j); }
 sv_t verif_slice_ell(sv_t indices, sv_t shape, int i, int step, int j)      { return ix::slice(indices, shape, i, nmtools_tuple<none_t,none_t,int>{None,None,step}, Ellipsis, j); }
+
+// ---- run-time slice list, array<int,3> encoding: a list with one [start,stop,step] entry (index::shape_dynamic_slice / dynamic_slice)
+using sl3_t  = nmtools_array<int,3>;
+using sls1_t = nmtools_array<sl3_t,1>;
+sv_t verif_shape_dynamic_slice_1(sv_t shape, int start, int stop, int step)          { sls1_t s{}; s[0][0] = start; s[0][1] = stop; s[0][2] = step; return ix::shape_dynamic_slice(shape, s); }
+sv_t verif_dynamic_slice_1(sv_t indices, sv_t shape, int start, int stop, int step)  { sls1_t s{}; s[0][0] = start; s[0][1] = stop; s[0][2] = step; return ix::dynamic_slice(indices, shape, s); }
